@@ -49,3 +49,159 @@ def debug(n=40, seed=0, fam=None):
 
 if __name__ == '__main__':
     debug(int(sys.argv[1]) if len(sys.argv) > 1 else 40)
+
+
+# ------------------------------------------------------------------------------------------------
+# the pipeline proper
+# ------------------------------------------------------------------------------------------------
+TIERS = {
+    'quick': dict(scale=1, seeds=1, timeout=900),
+    'thorough': dict(scale=12, seeds=3, timeout=3000),
+}
+FLOOR_PROPS = ('C02', 'C03', 'C04', 'C05', 'C06', 'C08', 'C11', 'C13', 'C15', 'C16', 'C17')
+
+
+def crash_clause(err):
+    """A run that raises or does not return: C03 ('a finite-horizon run of a well-posed model always returns')."""
+    kind = err.split(':', 1)[0]
+    what = 'NonTermination' if 'NONTERMINATION' in err else 'Raised_' + kind
+    return 'C03.RunReturns_' + what
+
+
+def _pipeline(tier):
+    t0 = time.time()
+    T = TIERS[tier]
+    cfgs = F.quick_family(C.seed(), T['scale'])
+    jobs = []
+    for c in cfgs:
+        for s in range(T['seeds']):
+            jobs.append((len(jobs) + 1, c, C.seed() * 1009 + c['cid'] * 7 + s))
+    out = C.parallel_map(_run, jobs)
+    traces = [o[0] for o in out]
+    scen = {j[0]: {'cid': j[1]['cid'], 'family': j[1].get('family'), 'cfg': j[1], 'seed': j[2]} for j in jobs}
+    stage = C.stage_specs(C.scratch('floor'))
+    fails, nlines, wall = P.validate_traces(stage, 'FloorTrace', 'FloorTrace.cfg', traces, heap='4g', timeout=T['timeout'])
+    res = {'tier': tier, 'traces': len(traces), 'lines': nlines, 'validate_wall': round(wall, 1), 'configs': len(cfgs)}
+    fam = {}
+    kinds = {}
+    for j, o in zip(jobs, out):
+        f = j[1].get('family', '?')
+        fam[f] = fam.get(f, 0) + 1
+        for ln in o[0]:
+            k = ln['ev'].get('kind', ln['ev']['op'])
+            kinds[k] = kinds.get(k, 0) + 1
+    res['families'] = fam
+    res['exercised'] = kinds
+    ndiv = 0
+    divs = []
+    by = {}
+    for tid, k, clause in fails:
+        if clause.startswith('D.'):
+            if clause == 'D.StepFn' or clause == 'D.Init':
+                ndiv += 1
+                if len(divs) < 5:
+                    divs.append({'tid': tid, 'k': k, 'cid': scen[tid]['cid'], 'family': scen[tid]['family']})
+            continue
+        by.setdefault(tid, []).append((k, clause))
+    res['spec_divergences'] = ndiv
+    res['divergence_samples'] = divs
+    vio = []
+    counts = {}
+    for j, o in zip(jobs, out):
+        if o[1]:
+            cl = crash_clause(o[1])
+            by.setdefault(j[0], []).append((len(o[0]), cl + '|' + o[1][:200]))
+    for tid, fl in sorted(by.items()):
+        fl.sort()
+        seen = set()
+        for k, clause in fl:
+            note = ''
+            if '|' in clause:
+                clause, note = clause.split('|', 1)
+            if clause in seen:
+                continue
+            seen.add(clause)
+            counts[clause] = counts.get(clause, 0) + 1
+            if counts[clause] <= 25:
+                vio.append({'tid': tid, 'k': k, 'clause': clause, 'note': note, 'cid': scen[tid]['cid'],
+                            'family': scen[tid]['family'], 'cfg': scen[tid]['cfg'], 'seed': scen[tid]['seed'],
+                            'tags': tags(scen[tid]['cfg'], traces[tid - 1], k)})
+    res['clause_counts'] = counts
+    res['violations'] = vio
+    res['samples'] = [{'cfg': cfgs[0], 'first_events': [l['ev'] for l in traces[0][1:6]]},
+                      {'cfg': cfgs[len(cfgs) // 2]}]
+    res['wall'] = round(time.time() - t0, 1)
+    return res
+
+
+def tags(cfg, trace, k):
+    """Classifies why a scenario fails, for matching known findings (by cause, not by trace hash)."""
+    out = []
+    # a failure that fired while the machine was already shut down (maintenance) earlier in this trace
+    for i, ln in enumerate(trace[:k + 1]):
+        ev = ln['ev']
+        if ev.get('op') == 'step' and ev.get('kind') == 'fail' and not ev.get('cancelled') and i > 0:
+            d = ev['asset']
+            pre = trace[i - 1]['st']['dev'][d - 1]
+            if pre.get('down'):
+                out.append('fail-while-shut-down')
+                break
+    return out
+
+
+def result(tier):
+    return P.cached('floor', tier, lambda: _pipeline(tier))
+
+
+def run(prop, tier):
+    t0 = time.time()
+    res = result(tier)
+    v = C.Verdict(prop)
+    for x in res['violations']:
+        if not x['clause'].startswith(prop + '.'):
+            continue
+        key = '%s:%s' % (prop, x['clause'].split('.', 1)[1])
+        if x['tags']:
+            key += ':' + '+'.join(x['tags'])
+        v.add(key=key, clause=x['clause'],
+              what='configuration %d (%s) line %d fails %s %s' % (x['cid'], x['family'], x['k'], x['clause'], x['note']),
+              replay={'pipeline': 'floor', 'cfg': x['cfg'], 'seed': x['seed'], 'line': x['k']})
+    lines, rc = v.finish()
+    mine = {c: n for c, n in res['clause_counts'].items() if c.startswith(prop + '.')}
+    cov = {
+        'evaluations': res['lines'], 'distinct_nontrivial': res['configs'],
+        'traces_validated_against_impl': res['traces'],
+        'samples': res['samples'], 'impl_trace_lines': res['lines'], 'configurations': res['configs'],
+        'families': res['families'], 'exercised': res['exercised'],
+        'spec_divergences': res['spec_divergences'], 'divergence_samples': res['divergence_samples'],
+        'clause_failures_of_this_property': mine, 'from_cache': res['from_cache'],
+        'known_findings_hit': v.known_hits,
+        'rule': 'every configuration of the scenario families (serial, parallel, resources, each also with scripted faults) is run '
+                'on the real package; after every dispatched event the projected state is logged and TLC evaluates the '
+                'property observers of FloorObs.tla on every line and compares the line with the closed specification '
+                'Floor.tla; distinct_nontrivial counts configurations, evaluations counts validated trace lines',
+    }
+    d = design_result(tier)
+    if d:
+        cov.update(states=d['states'], transitions=d['transitions'], design=d, exhaustive=True)
+    C.write_evidence(prop, tier, cov, time.time() - t0 if not res['from_cache'] else res['wall'], len(v.unlisted),
+                     ['times are multiples of 0.25 time units (exact binary floats), values small integers',
+                      'state is projected from public accessors where they exist and from the anchored private fields '
+                      '(_part, _output, _buffer, _waiting_for_downstream_space, _reserved_resources, _waiting_requests, ...)',
+                      'occurrences are observed through public callbacks registered by the harness'])
+    return lines, rc
+
+
+def design_result(tier):
+    return None
+
+
+def replay(sc):
+    from . import floor_tracer as T
+    lines, err = T.run_cfg(1, sc['cfg'], sc.get('seed') or 0)
+    stage = C.stage_specs(C.scratch('floor_replay'))
+    fails, n, _ = P.validate_traces(stage, 'FloorTrace', 'FloorTrace.cfg', [lines], shards=1)
+    fails = [f for f in fails if not f[2].startswith('D.')]
+    if err:
+        fails.append((1, len(lines), crash_clause(err)))
+    return fails, err
